@@ -343,7 +343,7 @@ def wrap_setup_suite(suite, scheduled_fixtures):
 
 
 def build_suite_initialization_task(suite, scheduled_fixtures, dependencies, force_disabled):
-    if not suite.has_enabled_tests() and not force_disabled:
+    if not suite.has_enabled_tests() and not (force_disabled and suite.get_tests()):
         return None
 
     setup_teardown_funcs = []
